@@ -253,6 +253,9 @@ class Verifier:
                 obls.extend(self.outcome_obligations(ex, k, fi, env, old, r))
             if only_labels is not None:
                 obls = [o for o in obls if f"{key}/{o.label}" in only_labels]
+            oo = (getattr(self, "only_obligations", None) or {}).get(key)
+            if oo:
+                obls = [o for o in obls if any(sub in o.label for sub in oo)]
             if getattr(self, "only_kinds", None):
                 obls = [o for o in obls if o.kind in self.only_kinds]
             results = self.discharge_all(ex, obls, key, env) if not getattr(self, "dry_run", False) else []
